@@ -96,7 +96,7 @@ let c08_judge c obs =
 (* ---------------- C20 ---------------- *)
 let c20_run spec c =
   match c with
-  | L [A "auth"; L accts; hdr; dec] ->
+  | L (A "auth" :: L accts :: hdr :: dec :: _) ->    (* optional flavour: pre (a middleware before the gate writes first) *)
     let accts = List.map (function L [u; p] -> (str u, str p) | _ -> failwith "c20: bad account") accts in
     let b64 _ = match dec with A "none" -> None | L [A "some"; d] -> Some (str d) | _ -> failwith "c20: bad oracle" in
     let hdr = str hdr in
@@ -119,7 +119,7 @@ let c20_run spec c =
         L [A "auth"; sbool ran; sint status; sstr www]
       | _ -> L [A "auth"; A "error"]
     end
-  | L [A "ovr"; m; fv; hv; A carrier] ->
+  | L (A "ovr" :: m :: fv :: hv :: A carrier :: _) ->   (* optional flavour: timeout (handlers.Timeout in the chain) *)
     let fv = if carrier = "n" then [] else str fv in
     let (m', o) = method_override (str m) fv (str hv) in
     L [A "ovr"; sstr m'; (match o with Some x -> sstr x | None -> A "none")]
